@@ -143,3 +143,50 @@ def report(chk, pid, bit, cases, extra, key, sig_fn=None, limit=12):
     extra["distinct_nontrivial"] = extra.get("distinct_nontrivial", 0) + len(
         {json.dumps((c["table"], c["ops"]), sort_keys=True, default=str) for c in cases})
     return bad
+
+
+# ------------------------------------------------------------------ implementation-level probes
+def mutable_ids(obj, seen=None):
+    """ids of the mutable objects reachable from obj (lists, dicts, sets, spec instances)"""
+    seen = {} if seen is None else seen
+    if isinstance(obj, (list, dict, set)) or hasattr(type(obj), "__spec_class__"):
+        if id(obj) in seen:
+            return seen
+        seen[id(obj)] = obj
+        if isinstance(obj, dict):
+            kids = list(obj.keys()) + list(obj.values())
+        elif isinstance(obj, (list, set)):
+            kids = list(obj)
+        else:
+            kids = list(object.__getattribute__(obj, "__dict__").values())
+        for k in kids:
+            mutable_ids(k, seen)
+    return seen
+
+
+def shared_objects(a, b, exempt=()):
+    """mutable objects reachable from both a and b, minus what is reachable from `exempt`"""
+    ex = {}
+    for e in exempt:
+        mutable_ids(e, ex)
+    ia, ib = mutable_ids(a), mutable_ids(b)
+    return [ia[i] for i in ia if i in ib and i not in ex]
+
+
+def dnc_family(parent_dnc, child_dnc, eager):
+    """parent spec class P (xs, ks: lists, n: int), spec subclasses Q (own do_not_copy list,
+    nothing re-defaulted) and S (sibling, declares nothing)"""
+    from typing import List
+
+    from spec_classes import spec_class
+    kw = {"bootstrap": True} if eager else {}
+    K = spec_class(key="name", **kw)(type("K", (), {"__annotations__": {"name": str, "marks": List[int]}, "marks": [],
+                                                    "__module__": "verif_generated", "__qualname__": "K"}))
+    P = spec_class(do_not_copy=list(parent_dnc), **kw)(
+        type("P", (), {"__annotations__": {"xs": List[int], "ks": List[K], "n": int}, "xs": [], "ks": [], "n": 0,
+                       "__module__": "verif_generated", "__qualname__": "P"}))
+    Q = spec_class(do_not_copy=list(child_dnc), **kw)(
+        type("Q", (P,), {"__annotations__": {"w": int}, "w": 0, "__module__": "verif_generated", "__qualname__": "Q"}))
+    S = spec_class(**kw)(type("S", (P,), {"__annotations__": {"v": int}, "v": 0,
+                                          "__module__": "verif_generated", "__qualname__": "S"}))
+    return K, P, Q, S
